@@ -33,6 +33,33 @@ def new_scratch_root(tag="run"):
     return path
 
 
+def sweep_stale_scratch():
+    """Remove scratch trees left behind by processes that no longer exist (killed workers)."""
+    try:
+        names = os.listdir(SCRATCH_BASE)
+    except OSError:
+        return 0
+    n = 0
+    for name in names:
+        if not name.startswith("mako-verif-"):
+            continue
+        parts = name.split("-")
+        try:
+            pid = int(parts[2])
+        except (IndexError, ValueError):
+            continue
+        try:
+            os.kill(pid, 0)
+            continue  # owner still alive
+        except ProcessLookupError:
+            pass
+        except PermissionError:
+            continue
+        shutil.rmtree(os.path.join(SCRATCH_BASE, name), ignore_errors=True)
+        n += 1
+    return n
+
+
 def remove_tree(path):
     shutil.rmtree(path, ignore_errors=True)
 
